@@ -9,7 +9,7 @@ from .common import C, txt
 MOVES = ["w", "e", "b", "l", "h", "$", "0", "W", "E", "fa", "tb", "j", "k", "gg", "G", "^", "ge", "2w", "3l"]
 EDITS = ["x", "dw", "iX<esc>", "a-<esc>", "rZ", "~", "D", "yiw", "P", "p", "dd", "cwnew<esc>", "ohi<esc>", "J", "u", "vey", "guw", "gUiw", '\\"ayiw', '\\"ap', '\\"Ayw']
 CUTS = ["e", "w", "$", "iw", "vee", "b", "3l", "E", "fa", "vi)", "va)", "0", "vaw", "f\\\\", "t\\\\", 'vi\\"', 'f\\"', '\\"ayiw']
-PATS = ["a", "o", "foo", "b.r", "\\d", "x|y", "e$", "^f", "z", "qqq", "^$"]
+PATS = ["a", "o", "foo", "b.r", "\\d", "x|y", "e$", "^f", "z", "qqq", "^$", "\\$[0-9]", " b", "#", " -", "\\$"]
 TEXTS = [
     "foo bar baz\nalpha beta gamma\nfoo2 bar2\n",
     "a b c d e f\ng h i j k l\n",
@@ -21,6 +21,7 @@ TEXTS = [
     "foo\nbar\nfoo2\n",
     "aXbXc foo,bar;baz\n  indented line\n",
     "path\\to\\file and more\nsecond\\line\n",
+    "tea $3 each\n# comment - here\nplain b\n",
 ]
 
 
